@@ -292,10 +292,19 @@ def special_islands(ctx, rep):
         seed = rng.randrange(2 ** 31)
         x, y, cg, gen = parts(seed, rng.choice([30, 60]))
         fit = ExplicitRegression(training_data=ExplicitTrainingData(x.copy(), y.copy()))
+        wrapped = t % 2 == 1
+        if wrapped:
+            # the fitness function SymbolicRegressor uses: a wrapper that delegates `training_data` to an inner function
+            cgw = ComponentGenerator(1, constant_probability=0.4)
+            for op in ("+", "*"):
+                cgw.add_operator(op)
+            cg, gen = cgw, AGraphGenerator(6, cgw)
+            fit = LocalOptFitnessFunction(fit, ScipyOptimizer(fit, method="lm"))
         ea = AgeFitnessEA(Evaluation(fit), gen, AGraphCrossover(), AGraphMutation(cg), 0.4, 0.4, 10)
-        case = {"kind": "fitness-predictor island", "seed": seed}
+        case = {"kind": "fitness-predictor island", "seed": seed, "local_optimization_wrapper": wrapped}
         rep.case(("fpi", seed), True)
-        rep.count("special", "fitness-predictor island")
+        rep.count("special", "fitness-predictor island" + (" with a delegating (local optimization) fitness function" if wrapped else ""))
+        full_ref = ExplicitRegression(training_data=ExplicitTrainingData(x.copy(), y.copy()))
         try:
             with warnings.catch_warnings():
                 warnings.simplefilter("ignore")
@@ -312,6 +321,15 @@ def special_islands(ctx, rep):
                     if bad:
                         rep.violate(f"fitness-predictor island, generation {g + 1}: {bad} individuals are marked evaluated but their stored fitness is "
                                     "not the value of the island's current fitness function", "C05:stale-fitness", {**case, "generation": g + 1})
+                        break
+                    # what the island hands out as TRUE fitness (hall of fame, best individual) is the full-data value of the genome
+                    handed = [("hall-of-fame entry", e) for e in isl.hall_of_fame] + [("reported best individual", isl.get_best_individual())]
+                    wrong = [(what, float(e.fitness), float(full_ref(e.copy()))) for what, e in handed
+                             if e.fit_set and not close(float(e.fitness), float(full_ref(e.copy())))]
+                    if wrong:
+                        rep.violate(f"fitness-predictor island, generation {g + 1}: {wrong[0][0]} is marked evaluated with fitness {wrong[0][1]}, "
+                                    f"the full-data fitness of its genome is {wrong[0][2]} ({len(wrong)} such values)", "C05:stale-fitness",
+                                    {**case, "generation": g + 1})
                         break
         except Exception as exc:
             rep.violate(f"fitness-predictor island raised {type(exc).__name__}: {exc}", "C05:raised", case)
